@@ -25,6 +25,10 @@ import ssl
 from typing import Any
 
 from easynetwork.lowlevel.api_async.backend._asyncio.backend import AsyncIOBackend
+from easynetwork.lowlevel.api_async.endpoints.stream import AsyncStreamEndpoint
+from easynetwork.lowlevel.api_sync.endpoints.stream import StreamEndpoint
+from easynetwork.protocol import BufferedStreamProtocol, StreamProtocol
+from easynetwork.serializers.base_stream import FixedSizePacketSerializer
 from easynetwork.lowlevel.api_async.transports.tls import AsyncTLSStreamTransport
 from easynetwork.lowlevel.api_sync.transports.socket import SSLStreamTransport
 
@@ -38,11 +42,13 @@ REC_SIZES = (300, 200)
 RULE = (
     "fault = raw EOF of the peer->library ciphertext stream after exactly o bytes. Family peer-closes (handshake, 2 records, "
     "close_notify; N = 883..1796 bytes depending on version/role): thorough = EVERY offset 0..N, quick = a structurally chosen, "
-    "completely enumerated subset (0, N, every record boundary +-2, every offset inside each 5-byte record header, every offset "
-    "inside every record of <= 80 bytes: ChangeCipherSpec, Finished, ServerHelloDone, EncryptedExtensions, close_notify) x "
+    "completely enumerated subset (0, N, every record boundary +-3, every offset inside each 5-byte record header, every offset "
+    "inside every record of <= 130 bytes: ServerHello, ServerKeyExchange, ChangeCipherSpec, Finished, ServerHelloDone, "
+    "EncryptedExtensions, CertificateVerify, close_notify; 132..399 offsets = 15-22 % of all, per configuration) x "
     "standard_compatible in {True, False} x TLS 1.2 / 1.3 x library as client / server x {AsyncTLSStreamTransport over "
     "MemTransport, AsyncTLSStreamTransport over the real asyncio socket adapter on a FakeSocket, blocking SSLStreamTransport over a "
-    "socketpair} x {recv, recv_into} x {connection afterwards still writable, writes fail with EPIPE}; additionally with the "
+    "socketpair} x {recv, recv_into, AsyncStreamEndpoint/StreamEndpoint.recv_packet with a copying and a buffered protocol (clean "
+    "end = its '(end-of-stream)' ConnectionAbortedError)} x {connection afterwards still writable, writes fail with EPIPE}; additionally with the "
     "ciphertext delivered 7 bytes at a time (thorough: also 1 byte at a time), and with the ssl.create_default_context() client context. Family lib-closes: every cut of the peer's answer to the library's "
     "close_notify (EOF instead of the answer before / after the library's close, every offset inside the answer), an answer that "
     "never comes (30 s shutdown timeout on the virtual clock), healthy close with standard_compatible True / False. "
@@ -55,10 +61,10 @@ ASSUMPTIONS = [
     "ciphertext lengths are deterministic (Ed25519 certificate): the layout learned from the uncut run is re-checked against every cut run (segments delivered before the cut must coincide) and by the length-trace guard",
     "TLS 1.3 NewSessionTicket records (post-handshake messages) are not needed for wrap() to succeed; a cut inside them is an abrupt end AFTER the handshake",
     "for H <= o with no application record complete, either wrap() raising or the first read raising is accepted (the statement only requires an error)",
-    "endpoint level (recv_packet mapping of the error) is checked under C03; this check observes the transports' recv / recv_into / aclose / close",
+    "endpoint level: 100-byte fixed-size packets (both records are multiples of it), so 'plaintext of complete records' = whole packets",
 ]
 BOUNDS = {
-    "quick": "structural subset of cut offsets (about 25-45 % of all offsets); default delivery and 7-byte fragmentation",
+    "quick": "structural subset of cut offsets (132..399 per configuration = 15-22 % of all offsets); default delivery and 7-byte fragmentation",
     "thorough": "every byte offset 0..N; default delivery, 7-byte and 1-byte fragmentation",
 }
 
@@ -93,6 +99,29 @@ def _exc_ok(exc: BaseException) -> bool:
 
 
 READ_LIMIT = 40
+PACKET = 100  # endpoint level: fixed-size packets; both record sizes are multiples of it
+
+
+class FixedPackets(FixedSizePacketSerializer[bytes, bytes]):
+    __slots__ = ()
+
+    def __init__(self) -> None:
+        super().__init__(PACKET)
+
+    def serialize(self, packet: bytes) -> bytes:
+        return packet
+
+    def deserialize(self, data: bytes) -> bytes:
+        return bytes(data)
+
+
+def endpoint_protocol(recv: str) -> Any:
+    return BufferedStreamProtocol(FixedPackets()) if recv == "endpoint_buf" else StreamProtocol(FixedPackets())
+
+
+def is_end_of_stream_error(exc: BaseException) -> bool:
+    """The endpoints report a clean end-of-stream as ConnectionAbortedError('... (end-of-stream)')."""
+    return isinstance(exc, ConnectionAbortedError) and "(end-of-stream)" in str(exc)
 SSL_EXC_NAMES = ("SSLError", "SSLEOFError", "SSLZeroReturnError", "SSLSyscallError", "SSLWantReadError", "SSLWantWriteError", "SSLCertVerificationError")
 
 
@@ -130,6 +159,9 @@ def run_async(cfg: dict) -> dict:
         got = bytearray()
         want = sum(REC_SIZES) if cfg["family"] == "peer-closes" else REC_SIZES[0]
         buf = bytearray(4096)
+        closer = tls
+        if cfg["recv"].startswith("endpoint"):
+            closer = endpoint = AsyncStreamEndpoint(tls, endpoint_protocol(cfg["recv"]), max_recv_size=4096)
         try:
             for _ in range(READ_LIMIT):
                 if cfg["family"] == "lib-closes" and len(got) >= want:
@@ -137,9 +169,16 @@ def run_async(cfg: dict) -> dict:
                     break
                 if cfg["recv"] == "recv":
                     d = await tls.recv(4096)
-                else:
+                elif cfg["recv"] == "recv_into":
                     n = await tls.recv_into(buf)
                     d = bytes(buf[:n])
+                else:
+                    try:
+                        d = await endpoint.recv_packet()
+                    except ConnectionAbortedError as exc:
+                        if not is_end_of_stream_error(exc):
+                            raise
+                        d = b""
                 out["reads"].append(len(d))
                 if not d:
                     out["reader"] = ("eof",)
@@ -152,7 +191,7 @@ def run_async(cfg: dict) -> dict:
         out["plaintext"] = bytes(got)
         t0 = world.clock
         try:
-            await tls.aclose()
+            await closer.aclose()
             out["close"] = ("ok",)
         except Exception as exc:  # noqa: BLE001
             out["close"] = ("exc", _exc_name(exc), _exc_ok(exc))
@@ -206,6 +245,9 @@ def run_blocking(cfg: dict) -> dict:
                 got = bytearray()
                 want = sum(REC_SIZES) if cfg["family"] == "peer-closes" else REC_SIZES[0]
                 buf = bytearray(4096)
+                closer = tr
+                if cfg["recv"].startswith("endpoint"):
+                    closer = endpoint = StreamEndpoint(tr, endpoint_protocol(cfg["recv"]), max_recv_size=4096)
                 try:
                     for _ in range(READ_LIMIT):
                         if cfg["family"] == "lib-closes" and len(got) >= want:
@@ -213,9 +255,16 @@ def run_blocking(cfg: dict) -> dict:
                             break
                         if cfg["recv"] == "recv":
                             d = tr.recv(4096, inf)
-                        else:
+                        elif cfg["recv"] == "recv_into":
                             n = tr.recv_into(buf, inf)
                             d = bytes(buf[:n])
+                        else:
+                            try:
+                                d = endpoint.recv_packet(timeout=None)
+                            except ConnectionAbortedError as exc:
+                                if not is_end_of_stream_error(exc):
+                                    raise
+                                d = b""
                         out["reads"].append(len(d))
                         if not d:
                             out["reader"] = ("eof",)
@@ -228,7 +277,7 @@ def run_blocking(cfg: dict) -> dict:
                 out["plaintext"] = bytes(got)
                 t0 = world.clock
                 try:
-                    tr.close()
+                    closer.close()
                     out["close"] = ("ok",)
                 except Exception as exc:  # noqa: BLE001
                     out["close"] = ("exc", _exc_name(exc), _exc_ok(exc))
@@ -320,9 +369,9 @@ def quick_offsets(lay: dict) -> list[int]:
     for start, end, _typ in lay["records"]:
         if start >= n:
             break
-        s.update(range(start - 2, start + 6))
-        s.update(range(end - 2, end + 3))
-        if end - start <= 80:
+        s.update(range(start - 3, start + 6))
+        s.update(range(end - 3, end + 4))
+        if end - start <= 130:
             s.update(range(start, end + 1))
     return sorted(o for o in s if 0 <= o <= n)
 
@@ -449,6 +498,12 @@ def jobs(tier: str) -> list[dict]:
         for v in tlsrig.VERSIONS:
             for r in tlsrig.ROLES:
                 for sc in (True, False):
+                    if kind != "asock":
+                        # endpoint level: AsyncStreamEndpoint / StreamEndpoint.recv_packet over the TLS transport (copying and
+                        # buffered receive paths); a truncation must NOT come out as the "(end-of-stream)" ConnectionAbortedError
+                        for recv in ("endpoint", "endpoint_buf"):
+                            for p in range(parts):
+                                out.append({"tier": tier, "base": _cfg(kind, v, r, sc, recv), "part": p, "parts": parts})
                     for recv in ("recv", "recv_into"):
                         for full in (False, True):
                             if full and kind == "asock":
@@ -464,7 +519,7 @@ def jobs(tier: str) -> list[dict]:
                 if r == "client":
                     # the clients' ssl=True path: create_default_context() trusting the rig certificate through SSL_CERT_FILE
                     out.append({"tier": tier, "base": _cfg(kind, v, r, True, "recv", ctx="default"), "part": 0, "parts": 1})
-                for recv in ("recv", "recv_into"):
+                for recv in ("recv", "recv_into") + (("endpoint",) if kind != "asock" else ()):
                     out.append({"tier": tier, "base": _cfg(kind, v, r, True, recv, family="lib-closes"), "part": 0, "parts": 1})
                 out.append({"tier": tier, "base": _cfg(kind, v, r, False, "recv", family="lib-closes"), "part": 0, "parts": 1})
     return out
